@@ -234,7 +234,22 @@ def gen_term_case(r, idx, wild=False, nops=None, kinds=None):
         elif k < 13:
             m = r.rng(0, 5)
             if long and r.chance(1, 2):
-                m = r.pick([31, 32, 33, 63, 64, 65, 127, 128, 129, 200])
+                m = r.pick([31, 32, 33, 63, 64, 65, 127, 128, 129, 200, 340, 341, 342, 343, 700])
+                if r.chance(1, 2):
+                    # mostly multi-byte glyphs in one rendition: glyphs straddle every
+                    # power-of-two offset of the bytes written for the string
+                    a = wf_attr(r)
+                    gs = []
+                    for _i in range(m):
+                        k3 = r.below(8)
+                        cp = r.rng(0x800, 0xFFFF) if k3 < 5 else r.rng(0xA0, 0x7FF) if k3 < 7 else r.rng(0x21, 0x7E)
+                        g = ((18, 0xE0 | (cp >> 12), 0x80 | ((cp >> 6) & 0x3F), 0x80 | (cp & 0x3F)) if cp >= 0x800
+                             else (18, 0xC0 | (cp >> 6), 0x80 | (cp & 0x3F), 0) if cp >= 0x80 else (18, cp, 0, 0))
+                        gs.append(el(g, a))
+                    lines.append("T 0 str %d %s" % (m, " ".join(gs)))
+                    if cur is not None:
+                        cur = (cur[0] + m, cur[1])
+                    continue
             lines.append("T 0 str %d" % m + "".join(" " + es.next() for _ in range(m)))
             if cur is not None:
                 cur = (cur[0] + m, cur[1])
@@ -1037,6 +1052,29 @@ def gen_charset_sweep():
                 want = 5
             lines.append("# WANTCS %d" % want)
             lines.append("M ete " + hexs([92, 99] + ([37] if ext else []) + [b, 88]))
+            lines.append("END")
+    # a designator looked up after another one in the same element: the result
+    # depends on the designator alone, not on which form (one byte / %-extended)
+    # was looked up before it
+    firsts = [[37, 53], [37, 54], [37, 63], [48], [65], [37]]
+    seconds = [[b] for b in sorted(STD_LOOKUP)] + [[37, b] for b in sorted(STD_LOOKUP_EXT)] + [[37, 48], [37, 65], [33]]
+    for f in firsts:
+        for g in seconds:
+            n += 1
+            lines.append("CASE %d" % n)
+            first = (STD_LOOKUP_EXT.get(f[1], 5) if len(f) == 2 else STD_LOOKUP.get(f[0], 5))
+            # an unknown designator leaves the set selected so far
+            if len(g) == 2:
+                want = STD_LOOKUP_EXT.get(g[1], first)
+            else:
+                want = STD_LOOKUP.get(g[0], first)
+            # an unknown first designator leaves the set unchanged and its bytes are
+            # consumed as the directive's argument either way
+            if f == [37]:
+                # "\c%" followed by "\c..": the '%' takes the backslash as its final byte
+                continue
+            lines.append("# WANTCS %d" % want)
+            lines.append("M ete " + hexs([92, 99] + f + [92, 99] + g + [88]))
             lines.append("END")
     for cs in range(18):
         n += 1
